@@ -732,6 +732,11 @@ class Pool(BasePool[C]):
         self._report_snapshot()
         self._capture_snapshot(now=now)
 
+        # Whatever the mode, a block that has waiters but no connection (not
+        # even a pending one) cannot make progress on its own - make sure it
+        # is not left behind, see _feed_connless_blocks().
+        self._feed_connless_blocks()
+
         # If we're managing connections to only one PostgreSQL DB (Mode A),
         # bail out early. Just give the one and only block we have the max
         # possible quota (which is needed only for logging purposes.)
@@ -910,6 +915,31 @@ class Pool(BasePool[C]):
                     dbname=block.dbname, event='set-quota', value=block.quota)
 
             self._maybe_rebalance()
+
+    def _feed_connless_blocks(self) -> None:
+        # A block with waiters and zero connections only gets a connection
+        # when an acquire() or a release() happens to create or transfer one
+        # for it. If the capacity it was waiting for was freed some other way
+        # (a discarded/GC-ed connection got closed, a connect attempt of
+        # another block ran out of retries), or if the only spare connections
+        # sit idle in blocks nobody is waiting on, nothing would ever wake
+        # the waiters up. So do it here, in every tick.
+        for block in tuple(self._blocks.values()):
+            if not block.count_waiters() or block.count_conns():
+                continue
+
+            if self._cur_capacity < self._max_capacity:
+                self._schedule_new_conn(block)
+                continue
+
+            for donor in self._blocks.values():
+                if (
+                    donor is not block
+                    and not donor.count_waiters()
+                    and (conn := donor.try_steal()) is not None
+                ):
+                    self._schedule_transfer(donor, conn, block)
+                    break
 
     def _maybe_rebalance(self) -> None:
         if self._is_starving:
